@@ -26,7 +26,7 @@ From Soy Require Import Proofs.SourceTieExpr Proofs.SourceTieQuote Proofs.Source
 From Soy Require Import Model.Bytes Model.Num Model.Values Model.Ast Model.Token Model.NumLit Model.Quote Model.ExprParser
   Model.AstPrint Generated.Tables Spec.ExprSyntax Proofs.ExprParserRules Proofs.LiteralProofs Proofs.ExprParserProofs Proofs.PlaceholderTextProofs.
 From Soy Require Import Model.Outcome Model.MsgId Proofs.MsgIdProofs.
-From Soy Require Import Model.Lexer Model.Parser Proofs.LexPrintMain Proofs.LexParseText Proofs.LexPrintCmd Proofs.PrintCmdText.
+From Soy Require Import Model.Lexer Model.Parser Proofs.LexerProofs Proofs.LexExpr Proofs.LexPrintTop Proofs.LexPrintMain Proofs.LexParseText Proofs.LexPrintCmd Proofs.PrintCmdText.
 From Soy Require Import Proofs.ParserProofs Proofs.CmdParserFuel Proofs.PrintCmdFile.
 From Soy Require Import Spec.LexKeyword Proofs.LexPrint Proofs.LexKeywordProofs.
 From Soy Require Import Model.RawText Model.Parser Model.AstPrintCmd Spec.CmdSyntax Proofs.CmdRoundtripBase Proofs.CmdRoundtripRules Proofs.CmdRoundtrip Proofs.ExprParserMono Proofs.CmdParserStripDefs Proofs.CmdParserStripMain Proofs.CmdRoundtripStrip Proofs.LexBodyC17Body Proofs.LexBodyC17Top Proofs.CmdRoundtripBytes.
@@ -84,6 +84,28 @@ Theorem C17_lex_print_command : forall n txt, wf_print n -> lex_ok_print n -> pr
     t_typ ld = itemLeftDelim /\ t_val ld = [123] /\ map tv mid = map tv (tokens_of_print n) /\ t_typ e = itemEOF.
 Proof. exact lex_print_command_tbl. Qed.
 Print Assumptions C17_lex_print_command.
+
+(* the expression at a position where the last item sent ENDS a term (the list expression of {for $x in e}
+   follows the identifier item "in"): lexNegative would read a leading "-" as the binary minus; every other
+   first character is lexed without looking at the last item.  For every well-formed, lexically well-formed e
+   whose printed text does not start with "-", the scanner model in lexInsideTag -- whatever item it sent last --
+   sends the items of tokens_of e (types and texts) and is back in lexInsideTag behind the text, the last item
+   ending a term; what follows the text is anything that may follow a printed expression (fexp: space ) ] , : | }
+   / or the end of the input).  Proofs/LexPrintMain.v lex_print_gen is the common generalisation of this and of
+   lex_print (operand positions, any text). *)
+Theorem C17_lex_print_any_last : forall inp base e txt, wf_expr e -> lex_ok e -> print_node e = Some txt -> no_minus txt ->
+  lexes is_letter_tbl is_digit_tbl inp base anyty fexp txt (toks e) term.
+Proof.
+  intros inp base e txt Hwf Hlo Hp Hm. destruct tables_ascii as [Hl Hd]. destruct tables_eof as [El Ed].
+  exact (lex_print_any is_letter_tbl is_digit_tbl Hl Hd El Ed inp base e Hwf Hlo txt Hp Hm).
+Qed.
+Print Assumptions C17_lex_print_any_last.
+(* non-vacuity: $xs.k + 1 and not $a satisfy the hypotheses; the side condition is needed: -$a does not *)
+Example C17_ex_any_last :
+  let e := NBin OAdd 0 (NDataRef 0 (b "xs") [NAccKey 0 false (b "k")]) (NInt 0 1) in
+  wf_expr e /\ lex_ok e /\ print_node e = Some (b "$xs.k + 1") /\ no_minus (b "$xs.k + 1") /\
+  print_node (NNeg 0 (NDataRef 0 (b "a") [])) = Some (b "-$a") /\ ~ no_minus (b "-$a").
+Proof. cbv zeta. repeat split; try reflexivity; try exact I; try (intros H; exact H). Qed.
 
 (* those items, after the opening "{", put through the parsePrint model (any budget above a bound, any position q
    for the command node): the print command itself, up to node positions *)
